@@ -328,12 +328,25 @@ func (s *Sys) Apply(op string) string {
 		s.dead = true
 		return oc
 	}
-	prev, g := s.cur, s.g
-	round := c.Round
-	prevProto := s.pr[prev.CV]
+	prev := s.cur
 	detail := func() string {
-		return fmt.Sprintf("params %s; accepted %d{%s} -> %d{%s}; proposal as announced: %+v", s.p, prev.Round, prev, round, c, g)
+		return fmt.Sprintf("params %s; accepted %d{%s} -> %d{%s}; proposal as announced: %+v", s.p, prev.Round, prev, c.Round, c, s.g)
 	}
+	g, tr := ghostStep(s.pr, 0, prev, c, s.g, func(sig string) { s.viol(sig, detail()) }, s.cnt)
+	s.cnt("transition_" + tr)
+	s.lastTr = tr
+	s.cur, s.g = c, g
+	return "accept"
+}
+
+// ghostStep advances the ghost record over ONE accepted transition prev -> c and evaluates the transition
+// invariants of the property (viol is called once per violated invariant, cnt feeds the vacuity counters);
+// it returns the new ghost record and the class of the transition.  Pure: it never calls the code under
+// test and reads only the harness' own parameter table pr (version v of the headers is pr[v-base]).
+// Used by part 1 on every explored transition and by part 4 along the canonical chain of a real node.
+func ghostStep(pr map[uint64]proto, base uint64, prev, c hdr, g ghost, viol func(sig string), cnt func(name string)) (ghost, string) {
+	round := c.Round
+	prevProto := pr[prev.CV-base]
 	tr := "idle"
 
 	// --- the property: CurrVersion changes only ...
@@ -341,13 +354,13 @@ func (s *Sys) Apply(op string) string {
 		tr = "switch"
 		switch {
 		case !g.Live:
-			s.viol("version changed with no live upgrade proposal", detail())
+			viol("version changed with no live upgrade proposal")
 		default:
 			if round != g.SwitchOn {
-				s.viol("version changed at a round other than the switch round the proposal announced", detail())
+				viol("version changed at a round other than the switch round the proposal announced")
 			}
 			if c.CV != g.Version {
-				s.viol("version changed to a version other than the one the proposal announced", detail())
+				viol("version changed to a version other than the one the proposal announced")
 			}
 			if g.InWindow < g.Thr {
 				cause := "total approvals below threshold"
@@ -356,17 +369,17 @@ func (s *Sys) Apply(op string) string {
 				} else if g.InWindow+g.AtClose+g.AfterClose >= g.Thr {
 					cause = "approvals counted after the window closed"
 				}
-				s.viol("switch with in-window approvals below threshold ("+cause+")", detail())
+				viol("switch with in-window approvals below threshold (" + cause + ")")
 			} else {
-				s.cnt("switch_with_quorum_in_window")
+				cnt("switch_with_quorum_in_window")
 				if g.InWindow == g.Thr {
-					s.cnt("switch_with_exactly_threshold_in_window")
+					cnt("switch_with_exactly_threshold_in_window")
 				}
 			}
 			if g.SwitchOn < g.VoteBefore+g.MinW {
-				s.viol("switch earlier than window close + MinUpgradeWaitRounds", detail())
+				viol("switch earlier than window close + MinUpgradeWaitRounds")
 			} else if g.SwitchOn == g.VoteBefore+g.MinW {
-				s.cnt("switch_at_exactly_min_wait")
+				cnt("switch_at_exactly_min_wait")
 			}
 		}
 	}
@@ -381,10 +394,10 @@ func (s *Sys) Apply(op string) string {
 			g.InWindow = 1
 		}
 		if c.NA > 1 {
-			s.viol("a block added more than one approval (at proposal opening)", detail())
+			viol("a block added more than one approval (at proposal opening)")
 		}
 		if c.VB != g.VoteBefore {
-			s.viol("proposal opened with a voting window other than UpgradeVoteRounds", detail())
+			viol("proposal opened with a voting window other than UpgradeVoteRounds")
 		}
 	case prev.NV != 0 && c.NV != 0 && c.CV == prev.CV:
 		tr = "vote-noapprove"
@@ -394,10 +407,10 @@ func (s *Sys) Apply(op string) string {
 		switch {
 		case c.NA < prev.NA:
 			tr = "vote-decrease"
-			s.viol("approvals decreased while the proposal was live", detail())
+			viol("approvals decreased while the proposal was live")
 		case c.NA > prev.NA:
 			if c.NA > prev.NA+1 {
-				s.viol("a block added more than one approval", detail())
+				viol("a block added more than one approval")
 			}
 			switch {
 			case round < g.VoteBefore:
@@ -412,13 +425,13 @@ func (s *Sys) Apply(op string) string {
 			}
 		}
 		if c.VB != prev.VB {
-			s.cnt("info_NextVoteBefore_rewritten_mid_vote")
+			cnt("info_NextVoteBefore_rewritten_mid_vote")
 		}
 	case prev.NV != 0 && c.NV == 0:
 		if c.CV == prev.CV && !(g.Live && round == g.SwitchOn) {
 			tr = "clear"
 			if g.Live && round == g.VoteBefore && g.InWindow < g.Thr {
-				s.cnt("failed_proposal_cleared_at_window_close")
+				cnt("failed_proposal_cleared_at_window_close")
 			}
 		} else if c.CV == prev.CV {
 			tr = "switch-same-version"
@@ -432,10 +445,7 @@ func (s *Sys) Apply(op string) string {
 	if c.CV != prev.CV && c.NV == 0 {
 		g = ghost{}
 	}
-	s.cnt("transition_" + tr)
-	s.lastTr = tr
-	s.cur, s.g = c, g
-	return "accept"
+	return g, tr
 }
 
 // Check: transition invariants found by Apply plus builder ⊆ verifier in the
@@ -578,6 +588,7 @@ func Run(r *mc.Run) {
 	r.Level = "model_checking"
 	r.Rule = "BFS over (header version tuple, ghost proposal record) states; the successors of a state are ALL candidate headers over the finite domains CurrVersion{1,2,3} x NextVersion{0,2,3} x NextApprovals x NextVoteBefore x NextSwitchOn (dom=full: approvals 0..R, round fields 0..R+rounds+maxwait+1; dom=rel, for a header at round n: approvals 0..min(n+1, rounds+maxwait+2), round fields 0..n+rounds+maxwait+1) that the real core.VerifyYouVersionState accepts after it (evaluations = verifier calls); a state is distinct by its full key (parameter set, round, header fields, ghost fields); in every reached state core.ProcessYouVersionState's header is offered to the verifier too"
 	r.Rule += "; PART 2 (real block builder): BFS (states de-duplicated on the head's version tuple) over all block histories of length <= R on a real chain (core.BlockChain + staking + core.TxPool) whose table lets version 5 upgrade to 6 and 6 to 7, every block built either by the REAL miner worker (W: commitNewWork + mine/postSeal through the hook miner.VerifBuildAndSealBlock) or by an honest proposer that does not know the proposed version (N: carries, clears, switches, never approves); for every W block: VerifyYouVersionState(true parent, worker header) accepts, the worker header's version fields equal ProcessYouVersionState(true parent) and the harness' own model of the honest builder, and an independent follower node imports the block with InsertChain"
+	r.Rule += "; PART 4 (version gate of the import entry points): on the real chain of part 2, the full product of: branches X (proposer c1) and Y (proposer s1) off a common ancestor, one per shape {W*,N*,WN*,NW*,WWN*} (W = real miner worker, N = honest non-approving proposer; branch length = switch offset + 2 (quick) / + 3: vote in progress, threshold reached, waiting, switch round, failed proposal cleared) x node state (engine plain | ucon-shaped | headers-only; X[:m] imported, m = 1..L-1, then Y[:j], j in {0, m-1, m, m+1}) x entry point (InsertChain | InsertHeaderChain (ucon engine only) | InsertGuaranteedHeaderChain) x branch the batch runs along (X | Y) x first index from = known-k for every overlap k = 0..known x (0, 1 or 2 new honest headers | the honest prefix up to pos + ONE forged header at pos in from..known+1 + 0 or 1 honest follower built on it) x forged version tuple (claims the switch now; approvals +2; NextSwitchOn rewritten; proposal cleared early; proposal replaced by / opened for another or unknown version; the honest approving and non-approving successor of each of the 3 headers above the parent and of the competing branch's header at the parent's height); forged blocks are real blocks built on the real parent's state (chainx builder with the version-state edit); oracle per offered batch: every newly stored header passes core.VerifyYouVersionState after its REAL parent, a batch whose headers all pass it is not refused with the version-state error, the chains below head header and head block pass the verifier link by link and part 1's ghost invariants, no panic, one-by-one vs batch delivery with every overlap ends in the same heads; a batch is distinct by (parameter set, engine, entry, version tuples of real parent / canonical header at the parent's height / every header of the batch, which of them were known)"
 	sets := quickSets()
 	if r.Quick() {
 		r.SetBudget(150e9)
@@ -607,12 +618,26 @@ func Run(r *mc.Run) {
 			r.Deadline = r.Deadline.Add(time.Since(t0))
 		}
 	}
+	// part 4: the version gate of the chain's import entry points (own time cap as well)
+	if os.Getenv("VERIF_C12_NO_GATE") == "" {
+		t0 := time.Now()
+		runGate(r)
+		r.SetExtra("gate_wall_s", time.Since(t0).Seconds())
+		if !r.Deadline.IsZero() {
+			r.Deadline = r.Deadline.Add(time.Since(t0))
+		}
+	}
+	if os.Getenv("VERIF_C12_NO_BFS") != "" { // testing aid: parts 2-4 only
+		r.Cap("part 1 skipped (VERIF_C12_NO_BFS)")
+		return
+	}
 	installCritHook()
 	r.Assume("MinUpgradeWaitRounds >= 1 (no shipped table uses 0; with 0 window close and switch can be the same round)")
 	r.Assume("header numbers increase by one (checked elsewhere by the header verifier); genesis = round 0, version 1, no proposal")
 	r.Assume("exploration horizon R = 2*(rounds+maxwait)+3 rounds per parameter set; candidate field domains as in the rule")
 	r.Assume("logging.Crit (os.Exit) is turned into a recorded outcome through the verif hook logging.VerifCritHook: a switch to a locally unknown version halts the node and has no successor state")
 	r.Assume("part 2: the parameter sets with known=both only (the worker under test is the up-to-date client; outdated peers are the N blocks); horizon R as in part 1 (two complete upgrades 5->6->7 plus slack); blocks carry no transactions; the worker's header Time comes from the wall clock and is not compared")
+	r.Assume("part 4: parameter sets, ancestor heights and branch lengths as listed under gate_worlds; batches of at most known+2 headers; at most ONE forged header per batch and at most one follower; the seal is the stub engine's (C01 judges seals); 'accepted' = the header is readable from the node's database after the call and was not before; block imports that fail for non-version reasons (a side block whose parent's state is not kept, the ucon-shaped engine's exist-canonical refusal of a forking header batch) are counted, not judged; the quick tier leaves out of the product: competing-branch shapes other than W* and N*, forged positions other than first-of-batch / first new / second new, a follower except behind a forged first-new header with no or the full overlap, two new honest headers except with no or the full overlap, verifier-admitted adversarial tuples except first in the batch or with the full overlap (thorough: the full product, ancestor heights 0 and 3, branches one block longer)")
 	var names []string
 	done := 0
 	for _, p := range sets {
@@ -643,6 +668,10 @@ func Run(r *mc.Run) {
 func Replay(r *mc.Run, v *mc.Violation) {
 	if m, ok := v.Input.(map[string]interface{}); ok && m["part3"] == true {
 		replayActiveVersion(r, v)
+		return
+	}
+	if m, ok := v.Input.(map[string]interface{}); ok && m["part4"] == true {
+		replayGate(r, v)
 		return
 	}
 	if strings.HasPrefix(v.System, "worker-chain[") {
